@@ -126,6 +126,10 @@ def run_check(pid, tier, seed, which, oracle_mode, extra_assumptions=(), post=No
     chk.assumptions += ASSUME_COMMON + list(extra_assumptions)
     if post:
         post(chk)
+    if pid in ("C04", "C06"):
+        # "inside every listener callback" / "listeners consume exactly this record": the shipped listeners must not write
+        # what they are handed (same frame obligations as in C13's check)
+        sc.shipped_listener_frames(chk, Repo())
     cache = {}
 
     def oracle(item):
